@@ -103,6 +103,17 @@ fn visit<'a>(
             }
             Ok(())
         }
-        Type::Name(ident) => visit_name(types, visited, ident.name),
+        Type::Name(ident) => {
+            visit_name(types, visited, ident.name)?;
+
+            // A cycle can also go through the type arguments (think of
+            // `Option[A]` as a field of `A`). Lists do put their elements
+            // behind a pointer, but the later passes cannot deal with
+            // a type that contains itself through a list either.
+            for arg in &ident.arguments {
+                visit(types, visited, arg)?;
+            }
+            Ok(())
+        }
     }
 }
